@@ -6,6 +6,18 @@ CHECKS = {
    text="TLC enumerates every text <= N bytes over a 6-byte alphabet x every offset (JqText laws checked on the spec) and every positioned multi-line program (fillers x fault catalogue x fillers); every behaviour is replayed into Lexer.GetLineAndCol / lang.EvalProgram and the reported (line, column, source line) compared with the spec's. Exhaustive within the bounds; the right level because the property is a pure function of (text, offset).",
    note="Trusts TLC and the JqText module as the definition of line/column; alphabet and catalogue bounds as listed in evidence; offsets at a newline / end of text only checked for consistency.",
    tech="TLA+ functional spec (JqText) enumerated by TLC; behaviours replayed into the real lexer/evaluator"),
+ "C07": dict(cat="model_checking", ref="5 (C07), 4.7",
+   text="The statement-level abstract machine JqEval (frames, control stack, signals, one action per critical section of evaluator.go) is explored by TLC over every statement tree up to N nodes x every condition-outcome sequence; invariants (FrameBalance, NoEscape, SigConsumed, ...) and action properties are checked in every state; every terminated behaviour is rendered to a program (two renderings: all braces / minimal braces) and replayed on lang.EvalProgram, comparing the label trace line by line. Exhaustive within the bounds.",
+   note="Trusts TLC and the JqEval transcription of the documented control-flow semantics; bounds (nodes, fuel) as in evidence; object key order only required to be deterministic.",
+   tech="TLA+ transition system (JqEval) model-checked by TLC; every behaviour replayed into the real evaluator"),
+ "C08": dict(cat="model_checking", ref="5 (C08), 4.7",
+   text="TLC explores call configurations on the JqEval machine (parameter binding, locals, globals, every form of return, recursion, mutual recursion, next/exit/fault inside callees, match frames) checking FrameBalance, BaseAtRuleStart, ScopeExit, DepthBounded in every state; each behaviour is replayed on the real code comparing printed values, outcome, and the frame depth (Push/Pop hooks) at which every output line is written; a sample is re-run over thousands of elements (history length).",
+   note="Trusts TLC and JqEval; dynamic-scoping captures are enumerated but not compared (statement silent); bounds as in evidence.",
+   tech="TLA+ transition system (JqEval frames/scopes) model-checked by TLC; behaviours replayed with frame-depth hooks; long-history replays"),
+ "C01": dict(cat="model_checking", ref="5 (C01), 4.7",
+   text="A: TLC explores every placement (7 rule contexts incl. pattern expression and root selector x wrapper nests x next/exit/return/break/continue/fault) on the JqEval machine, checking NoEscape/SigConsumed/FrameBalance in every state; each placement runs through the library (outcome and output must be one the model allows) and the binary (exit status, stderr, no crash). B: thousands of seeded random programs (grammatical, mutated, arbitrary bytes) x selectors x inputs are executed with hooks on; the recorded event traces are validated by TLC against the protocol spec JqProto (legal outcome, frame discipline, signal consumption); a sample also through the binary.",
+   note="Trusts TLC, JqEval/JqProto; random coverage is sampling, not exhaustive; budget/timeouts are inconclusive.",
+   tech="TLA+ model checking of signal placements + trace validation of recorded executions against a TLA+ protocol spec"),
 }
 ALL = ["C%02d" % i for i in range(1, 21)]
 hooks_commits = subprocess.run(["git","-C","/repo","log","--format=%H %s"],capture_output=True,text=True).stdout.splitlines()
